@@ -1090,7 +1090,7 @@ func (l *lastLines) Write(p []byte) (int, error) {
 	l.mu.Lock()
 	defer l.mu.Unlock()
 	for _, line := range strings.Split(string(p), "\n") {
-		if strings.HasPrefix(line, "C15CUR ") {
+		if strings.HasPrefix(line, "C15CUR ") || strings.HasPrefix(line, "C15RK ") {
 			l.cur = line
 		} else if strings.TrimSpace(line) != "" {
 			l.rest = append(l.rest, line)
